@@ -72,6 +72,34 @@ def gen(rng, tier, idx):
             cmds.append(["shape"] + toks)
         if rng.random() < 0.3:
             cmds.append(["negshape"] + toks)
+        if docs and rng.random() < 0.3:
+            # the catalog keeps changing between queries (value -> other value, value <-> no value on non-Total
+            # catalogs, new documents): complements must follow the CURRENT population (seeded change C04_C
+            # cached the set of indexed ids as long as their number stayed the same)
+            for _ in range(rng.randrange(1, 4)):
+                _, i, d = rng.choice(docs)[:3]
+                if rng.random() < 0.25:
+                    d = rng.randrange(40)
+                i = rng.randrange(len(kinds)) if total else i
+                k = kinds[i]
+                if not total and rng.random() < 0.4:
+                    cmds.append(["doc", i, d, "none"])
+                elif k == "field":
+                    cmds.append(["doc", i, d, rng.randrange(10)])
+                elif k == "text":
+                    cmds.append(["doc", i, d] + [rng.randrange(len(qtree.WORDS)) for _ in range(rng.randrange(1, 5))])
+                else:
+                    cmds.append(["doc", i, d] + sorted(set(rng.randrange(6) for _ in range(rng.randrange(1, 4)))))
+                if total:
+                    # keep the catalog Total: a new document gets a value in every index
+                    for j, kj in enumerate(kinds):
+                        if j != i and not any(c[0] == "doc" and c[1] == j and c[2] == d for c in cmds):
+                            if kj == "field":
+                                cmds.append(["doc", j, d, rng.randrange(10)])
+                            elif kj == "text":
+                                cmds.append(["doc", j, d, rng.randrange(len(qtree.WORDS))])
+                            else:
+                                cmds.append(["doc", j, d, rng.randrange(6)])
     return {"session": "query", "cfg": cfg, "kinds": kinds, "cmds": cmds}
 
 
